@@ -6,7 +6,8 @@ From Coq Require Import ZArith QArith String List Bool.
 Import ListNotations.
 From NV Require Import Crash.Outcome Crash.NumOps Crash.NumOpsProofs Crash.Index Crash.IndexProofs
   Crash.Lexer Crash.LexerProofs Crash.Span Crash.SpanProofs Crash.NameReg Crash.NameRegProofs
-  Crash.Defects Crash.MergeDispatch Crash.MergeDispatchProofs Crash.Ledger Gen.PanicSites.
+  Crash.Defects Crash.MergeDispatch Crash.MergeDispatchProofs Crash.TomlFloats Crash.TomlFloatsProofs
+  Crash.Ledger Gen.PanicSites.
 
 (* ---------------------------------------------------------------- (a) number primops *)
 Theorem C10_no_panic_div : forall n1 n2, no_panic (op_div n1 n2).
@@ -163,6 +164,18 @@ Proof. exact no_panic_select_value. Qed.
 
 Theorem C10_prio_eq_is_cmp_eq : forall a b, prio_eq a b = true <-> prio_cmp a b = Eq.
 Proof. exact prio_eq_cmp. Qed.
+
+(* ---------------------------------------------------------------- TOML import: inf / nan *)
+Theorem C10_no_panic_toml_import : forall doc, no_panic (from_doc doc).
+Proof. exact no_panic_toml_import. Qed.
+
+Theorem C10_toml_check_protects_conversion : forall i, check_floats i = true -> convert_item i = Val tt.
+Proof. exact convert_item_ok. Qed.
+
+(* a pre-check that does not enter inline tables below values would leave the expect reachable *)
+Theorem C10_toml_check_needs_inline_arm : exists v site,
+  check_value_no_inline v = true /\ convert_value v = Panic site.
+Proof. exact check_without_inline_arm_is_unsound. Qed.
 
 (* ---------------------------------------------------------------- the ledger *)
 Theorem C10_sites_all_covered : forall key line, In (key, line) sites -> exists c, In (key, c) ledger.
